@@ -131,12 +131,12 @@ def ltCfg (s : String) : Bool :=
 
 def looptraceWellFormed (toks : List String) : Bool :=
   match toks with
-  | [t0, t1, t2, t3, t4, t5, t6, t7, t8, t9, t10, t11] =>
+  | [t0, t1, t2, t3, t4, t5, t6, t7, t8, t9, t10, t11, t12] =>
     match ltVal t0 "ips", ltVal t1 "reloads", ltVal t2 "admit2", ltVal t3 "pps", ltVal t4 "rtt",
           ltVal t5 "nak", ltVal t6 "bh", ltVal t7 "sack", ltVal t8 "forget", ltVal t9 "cfg", ltVal t10 "quiet",
-          ltVal t11 "ticks" with
+          ltVal t11 "flood", ltVal t12 "ticks" with
     | some ips, some rl, some ad, some pps, some rtt, some nak, some bh, some sack, some forget, some cfg, some quiet,
-      some ticks =>
+      some flood, some ticks =>
       let rls := if rl == "-" then [] else rl.splitOn ","
       let bhs := if bh == "-" then [] else bh.splitOn ","
       let cfgs := if cfg == "-" then [] else cfg.splitOn ","
@@ -150,8 +150,11 @@ def looptraceWellFormed (toks : List String) : Bool :=
       (match quiet.splitOn ":" with
        | [a, b] => (ltNum a).isSome && (ltNum b).isSome
        | _ => false) &&
+      (match flood.splitOn ":" with
+       | [a, b] => (ltNum a).isSome && (match ltNum b with | some d => d ≤ 10 | none => false)
+       | _ => false) &&
       (match ltNum ticks with | some t => 1 ≤ t && t ≤ 200 | none => false)
-    | _, _, _, _, _, _, _, _, _, _, _, _ => false
+    | _, _, _, _, _, _, _, _, _, _, _, _, _ => false
   | _ => false
 
 end Srtla.Drv
